@@ -41,6 +41,13 @@ func c14Cases() []c14Prog {
 	objData := func() map[string]any {
 		return map[string]any{"o": map[string]any{"b": 2, "a": 1, "c": []int{1, 2}}, "st": C14S{1, "x", []int{3}}, "m4": map[string]int{"w": 1, "x": 2, "y": 3, "z": 4}}
 	}
+	// top-level assignments without data: a later evaluation of the same source starts from the same (empty) scope
+	leak := `@each(x in [1, 2]){{ x }},@end{{ y }}{{ x = "done" }}{{ y = {b: 1, a: 2} }}{{ x }}{{ y }}`
+	add("assign-without-data", leak, nil)
+	add("assign-with-empty-data", leak, func() map[string]any { return map[string]any{} })
+	add("assign-with-other-data", leak, func() map[string]any { return map[string]any{"z": 1} })
+	tree("assign-in-page-without-data", map[string]string{"index.tw": leak, "other.tw": `{{ x = 1.5 }}{{ y = "s" }}{{ x }}`}, "index", nil)
+	tree("assign-in-page-with-empty-data", map[string]string{"index.tw": leak, "other.tw": `{{ x = 1.5 }}{{ y = "s" }}{{ x }}`}, "index", func() map[string]any { return map[string]any{} })
 	// printing objects
 	add("print-2-keys", `{{ {a: 1, b: 2} }}`, nil)
 	add("print-3-keys", `{{ {c: 3, a: 1, b: 2} }}`, nil)
@@ -183,7 +190,20 @@ func c14Execute(p c14Prog, t *Tree) string {
 	return outcomeKey(render(tpl, p.page, data))
 }
 
+// c14Check: a violation of C14 is a pair of executions of one input that differ, so a replay that shows
+// such a pair once is a witness; causes outside the explorer's control (goroutines started by the library)
+// do not show on every attempt, hence up to 10 attempts per replay.
 func c14Check(cs c14Case) (ok bool, sig, expected, observed string) {
+	for attempt := 0; attempt < 10; attempt++ {
+		ok, sig, expected, observed = c14CheckOnce(cs)
+		if !ok {
+			return
+		}
+	}
+	return
+}
+
+func c14CheckOnce(cs c14Case) (ok bool, sig, expected, observed string) {
 	enterScratch()
 	p := c14Cases()[cs.ID]
 	var t *Tree
@@ -192,7 +212,7 @@ func c14Check(cs c14Case) (ok bool, sig, expected, observed string) {
 		tt.write()
 		t = &tt
 	}
-	ex := &orderExplorer{bound: cs.Bound}
+	ex := &orderExplorer{bound: cs.Bound, repeat: 6}
 	ex.explore(func() string { return c14Execute(p, t) })
 	expected = "one outcome over all map iteration orders for case " + p.name
 	if ex.diverged != "" {
@@ -243,7 +263,7 @@ func c14Run(c *Ctx) {
 			tt.write()
 			t = &tt
 		}
-		ex := &orderExplorer{bound: bound}
+		ex := &orderExplorer{bound: bound, repeat: 6}
 		ex.explore(func() string { return c14Execute(p, t) })
 		c.Evals(ex.executions)
 		c.Count("states", ex.executions) // distinct (case, answer vector) executions
@@ -252,7 +272,9 @@ func c14Run(c *Ctx) {
 		c.Count("cases_with_choice_points", b2i(ex.maxPoints > 0))
 		c.Count("distinct_outcomes_total", int64(len(ex.outcomes)))
 		c.Sample(map[string]any{"case": p.name, "src": p.src, "files": p.files, "executions": ex.executions, "max_choice_points": ex.maxPoints, "distinct_outcomes": len(ex.outcomes)})
-		if ex.diverged != "" || len(ex.outcomes) != 1 {
+		if ex.diverged != "" {
+			c.Report("replay-diverged/"+p.name, int64(id), cs, "the same input and the same map iteration orders give the same execution for case "+p.name, ex.diverged, "")
+		} else if len(ex.outcomes) != 1 {
 			ok, sig, exp, obs := c14Check(cs)
 			if !ok {
 				c.Report(sig, int64(id), cs, exp, obs, "")
@@ -289,6 +311,8 @@ func c14Legs(c *Ctx, p c14Prog, t *Tree) (sig, expected, observed string, bad bo
 			}
 			textwire.EvaluateString("@each(i in [1, 2])<{{ i }}>@if(loop.last){{ undefinedNoise }}@end@end", data)
 			textwire.EvaluateString("@for(i = 0; i < 3; i++)[{{ i }}]{{ 1 / (1 - i) }}@end", nil)
+			textwire.EvaluateString(`{{ x = "leak" }}{{ v = "leak" }}{{ o = 1.5 }}{{ i = "s" }}{{ y = 1 }}`, nil)
+			textwire.EvaluateString(`{{ x = "leak" }}{{ v = "leak" }}{{ o = 1.5 }}{{ i = "s" }}{{ y = 1 }}`, map[string]any{})
 		}
 	}
 	if t != nil {
@@ -314,6 +338,14 @@ func c14Legs(c *Ctx, p c14Prog, t *Tree) (sig, expected, observed string, bad bo
 				textwire.EvaluateString("@for(i = 0; i < 3; i++)[{{ i }}]{{ 1 / (1 - i) }}@end", nil)
 				render(tpl, "no-such-template", nil)
 				respond(tpl, "no-such-template", nil)
+				// the other files of the tree, and data-less evaluations that bind names the cases use
+				for _, other := range sortedKeys(t.Files) {
+					if n := strings.TrimSuffix(other, t.Ext); n != p.page {
+						render(tpl, n, data)
+					}
+				}
+				textwire.EvaluateString(`{{ x = "leak" }}{{ v = "leak" }}{{ o = 1.5 }}{{ i = "s" }}{{ y = 1 }}`, nil)
+				textwire.EvaluateString(`{{ x = "leak" }}{{ v = "leak" }}{{ o = 1.5 }}{{ i = "s" }}{{ y = 1 }}`, map[string]any{})
 			}
 		}
 	}
@@ -339,8 +371,9 @@ func b2i(b bool) int64 {
 
 func init() {
 	p := &Property{
-		ID:    "C14",
-		Level: "model_checking",
+		ID:     "C14",
+		Nondet: true,
+		Level:  "model_checking",
 		Rule:  "model checking of the map-order environment: every range over a map (and reflect MapKeys) in the module is a choice point whose answers are all permutations of the key-sorted entries (answer 0 = sorted); for each program/tree of a corpus biased to map use (objects with 2-4 keys printed, nested, dumped, from data and structs; object literals, data maps and component arguments with several failing entries; pages with several undefined inserts, duplicate slots, faulty files) every execution with at most k non-default answers is run (deviation-bounded DFS, replayed prefixes must hit the same sites or the run aborts) and all executions of one case must yield byte-identical output or identical (message, line, path). A supplementary leg repeats each case under Go's natural random order",
 		Bounds: func(tier string) map[string]any {
 			b := 2
